@@ -152,6 +152,14 @@ package circuitbreaker
 //@   ensures [C03.timed.record_failure] timedInv(s) && s.head == max(old(s.head), ediv(now, s.bucketNanos))
 //@   modifies s.head, s.summary, elems(s.buckets), calls(s.clock.CurrentUnixNano)
 
+//@ func (*timedStats).reset
+//@   requires timedInv(s)
+//@   loop 0 invariant -1 <= rangeindex && rangeindex < 10 && s.bucketCount == 10 && len(s.buckets) == 10 && s.buckets == old(s.buckets) && s.bucketNanos == old(s.bucketNanos) && s.clock == old(s.clock)
+//@   loop 0 invariant forall k int :: 0 <= k && k <= rangeindex ==> s.buckets[k].successes == 0 && s.buckets[k].failures == 0
+//@   loop 0 decreases 10 - rangeindex
+//@   ensures [C03.timed.reset] timedInv(s) && s.head == 0 && s.summary.successes == 0 && s.summary.failures == 0 && (forall k int :: 0 <= k && k < 10 ==> s.buckets[k].successes == 0 && s.buckets[k].failures == 0)
+//@   modifies s.head, s.summary, elems(s.buckets)
+
 //@ func (*timedStats).executionCount
 //@   requires s != nil && s.summary.successes <= 1099511627776 && s.summary.failures <= 1099511627776
 //@   ensures [C03.timed.count] result == s.summary.successes + s.summary.failures
@@ -775,3 +783,53 @@ package circuitbreaker
 //@   requires c != nil && c.BaseFailurePolicy != nil
 //@   ensures [C16.circuitbreaker.listener_registered_onfailure+C03.builder.onfailure] c.onFailure == listener && c.onSuccess == old(c.onSuccess) && result == asiface(c)
 //@   modifies c.BaseFailurePolicy.onFailure
+
+// WithDefaults is Builder().Build(): closed, opens after one failure, one minute delay
+//@ func WithDefaults
+//@   builder
+//@   dyntype CircuitBreakerBuilder *config only
+//@   let cb := asref(result, *circuitBreaker)
+//@   ensures [C03.with_defaults] typeis(result, *circuitBreaker) && typeis(cb.state, *closedState) && stateWF(cb) && cb.config.failureThreshold == 1 && cb.config.failureThresholdingCapacity == 1 && cb.config.failureExecutionThreshold == 0 && cb.config.failureThresholdingPeriod == 0 && cb.config.failureRateThreshold == 0 && cb.config.successThreshold == 0 && cb.config.successThresholdingCapacity == 0 && cb.config.Delay == 60000000000 && cb.config.DelayFunc == nil
+//@   modifies nothing
+
+// the metrics of a state-change event read the statistics of the state that was left; the event getters return what
+// transitionTo stored
+//@ frozen StateChangedEvent.metrics, StateChangedEvent.context
+//@ func (*eventMetrics).Executions
+//@   requires m != nil && m.stats != nil
+//@   oldlet n := 0
+//@   oncall executionCount: n := n + 1; x := callarg_0; v := callresult_0
+//@   ensures [C03.event_metrics.executions] n == 1 && x == m.stats && result == v
+//@   modifies methodcalls
+//@ func (*eventMetrics).Failures
+//@   requires m != nil && m.stats != nil
+//@   oldlet n := 0
+//@   oncall failureCount: n := n + 1; x := callarg_0; v := callresult_0
+//@   ensures [C03.event_metrics.failures] n == 1 && x == m.stats && result == v
+//@   modifies methodcalls
+//@ func (*eventMetrics).FailureRate
+//@   requires m != nil && m.stats != nil
+//@   oldlet n := 0
+//@   oncall failureRate: n := n + 1; x := callarg_0; v := callresult_0
+//@   ensures [C03.event_metrics.failure_rate] n == 1 && x == m.stats && result == v
+//@   modifies methodcalls
+//@ func (*eventMetrics).Successes
+//@   requires m != nil && m.stats != nil
+//@   oldlet n := 0
+//@   oncall successCount: n := n + 1; x := callarg_0; v := callresult_0
+//@   ensures [C03.event_metrics.successes] n == 1 && x == m.stats && result == v
+//@   modifies methodcalls
+//@ func (*eventMetrics).SuccessRate
+//@   requires m != nil && m.stats != nil
+//@   oldlet n := 0
+//@   oncall successRate: n := n + 1; x := callarg_0; v := callresult_0
+//@   ensures [C03.event_metrics.success_rate] n == 1 && x == m.stats && result == v
+//@   modifies methodcalls
+//@ func (*StateChangedEvent).Metrics
+//@   requires e != nil
+//@   ensures [C03.event.metrics] result == asiface(e.metrics)
+//@   modifies nothing
+//@ func (*StateChangedEvent).Context
+//@   requires e != nil
+//@   ensures [C03.event.context] result == e.context
+//@   modifies nothing
